@@ -465,7 +465,7 @@ def finish(ctx, mod, write_evidence=True):
     if write_evidence:
         cov = {'evaluations': ctx.evaluations,
                'distinct_nontrivial': len(ctx.hashes) + ctx.counted_nontrivial,
-               'rule': getattr(mod, 'RULE', ''), 'samples': ctx.samples,
+               'rule': getattr(mod, 'RULE', ''), 'samples': ctx.samples[:8],
                'classes': dict(ctx.classes.most_common(60)), 'clauses': ctx.clauses_run,
                'excluded': dict(ctx.excluded), 'inconclusive': dict(ctx.inconclusive),
                'known_findings_seen': [v['sig'] for v in listed]}
